@@ -194,6 +194,13 @@ def classify_generics_source(cx, fw, src):
                             okv = is_bound_result(tm, bt)
                     if not okv:
                         return ('bad', 'a predicate that does not come from Bound::%s is pushed into the where-clause (%s)' % (BOUND_FN, term_s(vt)))
+                    # the copy must be made afresh for every impl: a push inside a loop (over targets / variants) that the copy was
+                    # created outside of accumulates the predicates of earlier iterations in later impl headers
+                    own_loop = vt[1]
+                    outer = [c for c in ev.ctx if c['k'] == 'for' and c['id'] != own_loop and not any(c2.get('id') == c['id'] for c2 in d.ctx)]
+                    if outer:
+                        return ('bad', 'the generics copy `%s` is created outside the loop `for %s in %s` in which predicates are pushed into it: predicates of earlier iterations leak into the impl headers of later ones'
+                                % (d.name, pat_s(outer[0]['pat']), es(outer[0]['iter'])[:50]))
                 if ev.kind == 'assign' and es(ev.target).startswith(wd.name):
                     return ('bad', 'where-clause reassigned')
         return ('clone', 'clone of the type\'s generics + predicates from Bound::%s only' % BOUND_FN)
@@ -243,35 +250,40 @@ def arm_table(cx, f, scrut_pred):
 
 
 def check_bound_tables(cx, rep):
+    from ..restable import table
+    from ..alpha import Alpha
+
+    def has(rows, kinds_ok, value):
+        return any(kinds_ok(tuple(k for k in r[0] if k != '_')) and r[1] == value for r in rows)
     # Bound::from_meta
     fs = find_fn(cx, 'common::bound::Bound::from_meta')
     if len(fs) != 1:
         rep.broken.append('Bound::from_meta not found')
     else:
         f = fs[0]
-        tab, ev = arm_table(cx, f, lambda e: 'meta_2_where_predicates' in es(e))
         where = f.qname
-        if tab is None:
+        rows = table(cx, f)
+        al = Alpha(f)
+        fw = cx.fw(f)
+        scr = [al.text(ev.node['expr']) for ev in fw.events if ev.kind == 'match']
+        if not any(x in ('meta_2_where_predicates($0)?', 'crate::common::where_predicates_bool::meta_2_where_predicates($0)?') for x in scr):
             rep.bad('BOUND-MAP', where, 'match', 'Bound::from_meta no longer maps the parsed value through a match on meta_2_where_predicates(meta)', f.file, f.line)
         else:
-            exp = {
-                'WherePredicatesOrBool::WherePredicates(where_predicates)': lambda b: norm(b) in ('Self::Custom(where_predicates)', '{Self::Custom(where_predicates)}'),
-                'WherePredicatesOrBool::Bool(b)': lambda b: norm(b) in ('{ifb{Self::Auto}else{Self::Disabled}}', 'ifb{Self::Auto}else{Self::Disabled}'),
-                'WherePredicatesOrBool::All': lambda b: norm(b) == 'Self::All',
-            }
-            for k, pred in exp.items():
-                # pattern variable names may differ: normalise by arity/constructor
-                found = [p for p in tab if p.split('(')[0] == k.split('(')[0]]
-                if not found:
-                    rep.bad('BOUND-MAP', where, 'arm=%s' % k.split('(')[0], 'no arm for `%s`' % k, f.file, ev.line)
-                    continue
-                body = tab[found[0]]
-                var = found[0].split('(')[1].rstrip(')') if '(' in found[0] else None
-                okb = check_from_meta_arm(k.split('(')[0], var, body)
-                if okb:
-                    rep.ok('BOUND-MAP', '%s|%s' % (where, k.split('(')[0]), {'arm': found[0], 'maps_to': es(body)[:80]})
+            W = 'WherePredicatesOrBool::'
+            exp = [
+                ('WherePredicates', lambda ks: ks[-1:] == (W + 'WherePredicates',), ['Ok(Self::Custom(where_predicates))'], 'explicit predicates → Custom'),
+                ('Bool-true', lambda ks: ks[-2:] in ((W + 'Bool', 'if(bool)'), (W + 'Bool', '!if(!bool)')), ['Ok(Self::Auto)'], '`bound = true` → Auto'),
+                ('Bool-false', lambda ks: ks[-2:] in ((W + 'Bool', '!if(bool)'), (W + 'Bool', 'if(!bool)')), ['Ok(Self::Disabled)'], '`bound = false` → Disabled'),
+                ('All', lambda ks: ks[-1:] == (W + 'All',), ['Ok(Self::All)'], '`*` → All'),
+            ]
+            for name, kp, vals, why in exp:
+                if any(has(rows, kp, v) for v in vals):
+                    rep.ok('BOUND-MAP', '%s|%s' % (where, name), {'maps_to': vals[0]})
                 else:
-                    rep.bad('BOUND-MAP', where, 'arm=%s' % k.split('(')[0], '`%s` is mapped to `%s`' % (found[0], es(body)[:100]), f.file, ev.line)
+                    rep.bad('BOUND-MAP', where, 'arm=%s' % name, '%s: found %s' % (why, [(list(r[0]), r[1][:60]) for r in rows if kp(tuple(k for k in r[0] if k != '_'))][:2]), f.file, f.line)
+            extra = [r for r in rows if r[1].startswith('Ok(') and r[1] not in ('Ok(Self::Custom(where_predicates))', 'Ok(Self::Auto)', 'Ok(Self::Disabled)', 'Ok(Self::All)')]
+            for r in extra:
+                rep.bad('BOUND-MAP', where, 'extra', 'an additional bound mode is produced: %s under %s' % (r[1][:60], list(r[0])), f.file, r[2].line)
     # into_where_predicates…
     fs = find_fn(cx, 'common::bound::Bound::' + BOUND_FN)
     if len(fs) != 1:
@@ -279,39 +291,28 @@ def check_bound_tables(cx, rep):
     else:
         f = fs[0]
         where = f.qname
-        tab, ev = arm_table(cx, f, lambda e: es(e) == 'self')
-        if tab is None:
+        rows = table(cx, f)
+        pn = [p_[0] for p_ in f.params() if p_[0] != 'self']
+        fw = cx.fw(f)
+        if not any(ev.kind == 'match' and es(ev.node['expr']).lstrip('&*') == 'self' for ev in fw.events):
             rep.bad('BOUND-USE', where, 'match', 'no `match self` in %s' % BOUND_FN, f.file, f.line)
+        elif len(pn) != 4:
+            rep.bad('BOUND-USE', where, 'signature', '%s no longer takes (params, bound_trait, types, supertraits)' % BOUND_FN, f.file, f.line)
         else:
-            params = [p[0] for p in f.params()]
-            def arm(name):
-                for p in tab:
-                    if p.split('(')[0] == 'Self::' + name:
-                        return p, tab[p]
-                return None, None
-            p, b = arm('Disabled')
-            if b is None or norm(b) not in ('Punctuated::new()',):
-                rep.bad('BOUND-USE', where, 'Disabled', '`bound = false` must add no predicate; arm is `%s`' % (es(b)[:80] if b else 'missing'), f.file, ev.line)
-            else:
-                rep.ok('BOUND-USE', where + '|Disabled')
-            p, b = arm('Custom')
-            var = p.split('(')[1].rstrip(')') if p and '(' in p else None
-            if b is None or norm(b) != var:
-                rep.bad('BOUND-USE', where, 'Custom', 'explicit predicates must be returned unchanged; arm is `%s`' % (es(b)[:80] if b else 'missing'), f.file, ev.line)
-            else:
-                rep.ok('BOUND-USE', where + '|Custom')
-            p, b = arm('Auto')
-            if b is None or not (b['k'] == 'Call' and es(b['func']).endswith('create_where_predicates_from_generic_parameters_check_types')
-                                 and [es(a) for a in b['args']] == ['bound_trait', 'types', 'supertraits']):
-                rep.bad('BOUND-USE', where, 'Auto', 'automatic mode must build predicates from (bound_trait, types, supertraits); arm is `%s`' % (es(b)[:100] if b else 'missing'), f.file, ev.line)
-            else:
-                rep.ok('BOUND-USE', where + '|Auto')
-            p, b = arm('All')
-            if b is None or not (b['k'] == 'Call' and es(b['func']).endswith('create_where_predicates_from_all_generic_parameters')
-                                 and [es(a) for a in b['args']] == ['params', 'bound_trait']):
-                rep.bad('BOUND-USE', where, 'All', '`bound(*)` must build predicates from (params, bound_trait); arm is `%s`' % (es(b)[:100] if b else 'missing'), f.file, ev.line)
-            else:
-                rep.ok('BOUND-USE', where + '|All')
+            G = 'create_where_predicates_from_generic_parameters_check_types'
+            A = 'create_where_predicates_from_all_generic_parameters'
+            exp = [
+                ('Disabled', ['Punctuated::new()', 'WherePredicates::new()'], '`bound = false` must add no predicate'),
+                ('Custom', ['custom'], 'explicit predicates must be returned unchanged'),
+                ('Auto', ['%s($1,$2,$3)' % G, 'crate::common::where_predicates_bool::%s($1,$2,$3)' % G], 'automatic mode must build predicates from (bound_trait, types, supertraits)'),
+                ('All', ['%s($0,$1)' % A, 'crate::common::where_predicates_bool::%s($0,$1)' % A], '`bound(*)` must build predicates from (params, bound_trait)'),
+            ]
+            for name, vals, why in exp:
+                cand = [r for r in rows if tuple(k for k in r[0] if k != '_')[-1:] == ('Self::' + name,)]
+                if len(cand) == 1 and cand[0][1] in vals:
+                    rep.ok('BOUND-USE', where + '|' + name)
+                else:
+                    rep.bad('BOUND-USE', where, name, '%s; arm is `%s`' % (why, [c[1][:80] for c in cand] or 'missing'), f.file, f.line)
     check_predicate_builders(cx, rep)
     check_parse_forms(cx, rep)
 
@@ -434,60 +435,56 @@ def check_predicate_builders(cx, rep):
 
 def check_parse_forms(cx, rep):
     """WherePredicatesOrBool::from_lit / Parse: bool, string (empty => false), `*`, predicate list"""
+    from ..restable import table
+    from ..alpha import Alpha
+
+    def nk(r):
+        return tuple(k for k in r[0] if k != '_')
     fs = find_fn(cx, 'where_predicates_bool::WherePredicatesOrBool::from_lit')
     if len(fs) == 1:
         f = fs[0]
-        tab, ev = arm_table(cx, f, lambda e: es(e) == 'lit')
         where = f.qname
-        if tab is None:
+        rows = table(cx, f)
+        al = Alpha(f)
+        fw = cx.fw(f)
+        if not any(ev.kind == 'match' and al.text(ev.node['expr']).lstrip('&*') == '$0' for ev in fw.events):
             rep.bad('BOUND-MAP', where, 'match', 'from_lit no longer matches on the literal kind', f.file, f.line)
         else:
-            b = [tab[p] for p in tab if p.startswith('Lit::Bool(')]
-            if b and norm(b[0]) in ('Self::Bool(lit.value)',):
+            if any(nk(r)[-1:] == ('Lit::Bool',) and r[1] in ('Ok(Self::Bool(bool.value))', 'Ok(Self::Bool(bool.value()))') for r in rows):
                 rep.ok('BOUND-MAP', where + '|bool-literal')
             else:
-                rep.bad('BOUND-MAP', where, 'bool-literal', 'boolean literal must map to Bool(value)', f.file, ev.line)
-            s = [tab[p] for p in tab if p.startswith('Lit::Str(')]
-            okstr = False
-            if s and s[0]['k'] == 'Match':
-                inner = {pat_s(a['pat']) + ('|' + norm(a['guard']) if a.get('guard') else ''): norm(a['body']) for a in s[0]['arms']}
-                okstr = (inner.get('Ok(where_predicates)') == 'Self::WherePredicates(where_predicates)'
-                         and inner.get('Err(_)|lit.value().is_empty()') == 'Self::Bool(false)'
-                         and 'parse_with(WherePredicates::parse_terminated)' in norm(s[0]['expr']))
-            if okstr:
+                rep.bad('BOUND-MAP', where, 'bool-literal', 'boolean literal must map to Bool(value)', f.file, f.line)
+            ok_pred = any(nk(r)[-2:] == ('Lit::Str', 'Ok') and r[1] == 'Ok(Self::WherePredicates(ok))' for r in rows)
+            ok_empty = any(nk(r)[-2:] == ('Lit::Str', 'Err') and r[1] == 'Ok(Self::Bool(false))' for r in rows)
+            guard = False
+            scr = False
+            for ev in fw.events:
+                if ev.kind == 'match':
+                    if al.text(ev.node['expr']) == 'str.parse_with(WherePredicates::parse_terminated)':
+                        scr = True
+                        for a in ev.node['arms']:
+                            if pat_s(a['pat']).startswith('Err(') and a.get('guard') is not None and al.text(a['guard']) == 'str.value().is_empty()':
+                                b = a['body']
+                                guard = al.text(unblock(b)) == 'Self::Bool(false)'
+            if ok_pred and ok_empty and guard and scr:
                 rep.ok('BOUND-MAP', where + '|string-literal')
             else:
-                rep.bad('BOUND-MAP', where, 'string-literal', 'a string must parse as predicates, the empty string meaning `false`', f.file, ev.line)
+                rep.bad('BOUND-MAP', where, 'string-literal', 'a string must parse as predicates, the empty string (and only it) meaning `false`', f.file, f.line)
     else:
         rep.broken.append('WherePredicatesOrBool::from_lit not found')
     fs = [f for f in cx.crate.fns if f.qname.endswith('where_predicates_bool::WherePredicatesOrBool::parse')]
     if len(fs) == 1:
         f = fs[0]
-        fw = cx.fw(f)
         where = f.qname
-        attempts = []
-        for ev in fw.events:
-            if ev.kind == 'branch' and ev.pos['k'] == 'iflet' and pat_s(ev.pos['pat']).startswith('Ok('):
-                x = ev.pos['expr']
-                if x['k'] == 'MethodCall' and x['method'] == 'parse' and x.get('turbofish'):
-                    ty = x['turbofish'][0]
-                    tytxt = ty_s(ty['ty']) if ty['k'] == 'Type' else ''
-                    rets = [norm(e2.value) for e2 in fw.events if e2.kind == 'exit' and e2.how == 'return' and any(c.get('id') == ev.pos['id'] and c.get('pol') for c in e2.ctx)]
-                    attempts.append((tytxt.replace(' ', ''), rets))
-        lit = [a for a in attempts if a[0] == 'Lit']
-        star = [a for a in attempts if 'Token' in a[0] and '*' in a[0]]
-        ok1 = bool(lit) and any(r.startswith('Self::from_lit(') for r in lit[0][1]) and attempts.index(lit[0]) == 0
-        ok2 = bool(star) and any(r == 'Ok(Self::All)' for r in star[0][1])
-        tail = fw.tail
-        ok3 = False
-        if tail is not None:
-            n = norm(tail)
-            ok3 = n.startswith('Ok(Self::WherePredicates(input.parse_terminated(WherePredicate::parse,')
+        rows = table(cx, f)
+        ok1 = any(nk(r) == ('parse<Lit>',) and r[1] in ('Self::from_lit(&ok)', 'Self::from_lit(ok)') for r in rows)
+        ok2 = any(nk(r) == ('!parse<Lit>', 'parse<Token![*]>') and r[1] == 'Ok(Self::All)' for r in rows)
+        ok3 = any(nk(r) == ('!parse<Lit>', '!parse<Token![*]>') and r[1].startswith('Ok(Self::WherePredicates($0.parse_terminated(WherePredicate::parse,') for r in rows)
         for nm, okx in (('literal-first', ok1), ('star', ok2), ('predicate-list', ok3)):
             if okx:
                 rep.ok('BOUND-MAP', where + '|' + nm)
             else:
-                rep.bad('BOUND-MAP', where, nm, 'the list form `bound(..)` no longer accepts the %s form as documented' % nm, f.file, f.line)
+                rep.bad('BOUND-MAP', where, nm, 'the list form `bound(..)` no longer accepts the %s form as documented (cases: %s)' % (nm, [(list(r[0]), r[1][:50]) for r in rows][:4]), f.file, f.line)
     else:
         rep.broken.append('WherePredicatesOrBool::parse not found')
 
